@@ -181,6 +181,39 @@ def c08_standard_consistency(ctx):
                  p.Atmo.standard_temperature(p.Distance.Foot(a)) >> p.Temperature.Kelvin, rel=1e-6)
 
 
+@harness('C08.standard_twice', 'C08', functions=FUNCS, engine_opts={'div_check': False, 'pin_check': True},
+         must_reach=['check:standard_atmosphere_again_is_standard'],
+         bounds='the standard atmosphere for a symbolic altitude is requested, that object is then MODIFIED by its owner (humidity set to a symbolic '
+                'percentage) and used, and the standard atmosphere for the same altitude is requested again (Atmo.icao, Atmo.standard, the default atmosphere of a new Shot): '
+                'every request gives the standard values - nothing of the first object\'s later life shows',
+         stubs=['sqrt/pow/exp summarised'])
+def c08_standard_twice(ctx):
+    p = pybc()
+    a0 = _alt(ctx, 'station_ft')
+    h = ctx.real('humidity_percent', 0, 100)
+    first = p.Atmo.icao(p.Distance.Foot(a0))
+    ref = dict(h=first.humidity, d=first.density_ratio, m=first.mach, t=first.temperature.raw_value, pr=first.pressure.raw_value)
+    first.humidity = h
+    for door in ('icao', 'standard'):
+        again = getattr(p.Atmo, door)(p.Distance.Foot(a0))
+        ctx.check('standard_atmosphere_again_is_standard', again is not first, info={'door': door, 'what': 'a new object'})
+        ctx.check_eq('standard_atmosphere_again_is_standard', again.humidity, ref['h'], info={'door': door, 'what': 'humidity'})
+        ctx.check('standard_atmosphere_again_is_standard', ctx.same_term(again.density_ratio, ref['d']), info={'door': door, 'what': 'density ratio'})
+        ctx.check('standard_atmosphere_again_is_standard', ctx.same_term(again.mach, ref['m']), info={'door': door, 'what': 'mach'})
+        ctx.check('standard_atmosphere_again_is_standard', ctx.same_term(again.temperature.raw_value, ref['t']), info={'door': door, 'what': 'temperature'})
+        ctx.check('standard_atmosphere_again_is_standard', ctx.same_term(again.pressure.raw_value, ref['pr']), info={'door': door, 'what': 'pressure'})
+    # the default atmosphere of a shot: sea-level standard, its own object, whatever another shot's owner did to theirs
+    ammo = p.Ammo(p.DragModel(0.3, p.TableG7), p.Velocity.FPS(2700))
+    s1 = p.Shot(p.Weapon(), ammo)
+    sea = dict(h=s1.atmo.humidity, d=s1.atmo.density_ratio, m=s1.atmo.mach)
+    s1.atmo.humidity = h
+    s2 = p.Shot(p.Weapon(), ammo)
+    ctx.check('standard_atmosphere_again_is_standard', s2.atmo is not s1.atmo, info={'door': 'Shot default', 'what': 'a new object'})
+    ctx.check_eq('standard_atmosphere_again_is_standard', s2.atmo.humidity, sea['h'], info={'door': 'Shot default', 'what': 'humidity'})
+    ctx.check('standard_atmosphere_again_is_standard', ctx.same_term(s2.atmo.density_ratio, sea['d']), info={'door': 'Shot default', 'what': 'density ratio'})
+    ctx.check('standard_atmosphere_again_is_standard', ctx.same_term(s2.atmo.mach, sea['m']), info={'door': 'Shot default', 'what': 'mach'})
+
+
 @harness('C08.humidity', 'C08', functions=FUNCS, must_reach=['check:rejected_outside_0_100', 'check:percent_equals_fraction'],
          engine_opts={'div_check': False, 'pin_check': True},
          bounds='all humidity values: rejected iff < 0 or > 100; percent p in (1,100] and fraction p/100 give the same stored humidity and the same density term',
